@@ -12,6 +12,7 @@ type Pool struct {
 	cancel context.CancelFunc
 
 	runM      sync.Mutex
+	stopM     sync.Mutex
 	lazySendM sync.Mutex
 	listM     sync.Mutex
 
